@@ -192,15 +192,15 @@ Proof.
 Qed.
 
 (* ---- admission ---- *)
-Theorem admit_spec s src dst dst_ok :
-  (server_admit s src dst dst_ok = AdmitTo src <->
-   spec_admit (abs s)
+Theorem accepts_spec s src dst dst_ok :
+  (server_accepts s src dst dst_ok = HandTo src <->
+   spec_accepts (abs s)
      (fun a => match lookup a (s_peers s) with
                | Some (_, o) => if is_valid (o_local o) then Some (o_local o) else None
                | None => None end) src dst dst_ok = true)
-  /\ (server_admit s src dst dst_ok = Refuse \/ server_admit s src dst dst_ok = AdmitTo src).
+  /\ (server_accepts s src dst dst_ok = Refuse \/ server_accepts s src dst dst_ok = HandTo src).
 Proof.
-  unfold server_admit, spec_admit, abs.
+  unfold server_accepts, spec_accepts, abs.
   destruct (lookup src (s_peers s)) as [[c o]|]; [|split; [split; discriminate|left; reflexivity]].
   destruct (is_valid (o_local o)).
   - destruct (dst_ok && addr_eqb (o_local o) dst); split; try (split; congruence); auto.
